@@ -65,6 +65,8 @@ M = [
  ("M47", "-C05", [("src/Archive/ClmFile.cpp", "\t\t} while (currentPosition < fileSize);", "\t\t} while (currentPosition != fileSize);")], "NEGATIVE CONTROL (found by the self-test): with the 64-bit cursor a walk that steps over the end just fails its next read - still an ordinary error, still terminates"),
  ("M48", "C12", [("src/Stream/MemoryReader.cpp", "position += bytesTransferred;", "position += size;")], "the original ReadPartial defect re-introduced"),
  ("M49", "C14", [("src/Stream/FileWriter.cpp", "iosOpenMode |= std::ios_base::app | std::ios_base::ate;", "iosOpenMode |= std::ios_base::ate;")], "the original Append-truncates defect re-introduced"),
+ ("M51", "C03", [("src/Archive/ClmFile.cpp", "\t\tStream::FileWriter clmFileWriter(archiveFilename);\n", "\t\tconst std::string temporaryFilename = archiveFilename + \".tmp\";\n\t\t{\n\t\tStream::FileWriter clmFileWriter(temporaryFilename);\n"),
+                 ("src/Archive/ClmFile.cpp", "\t\t\tclmFileWriter.Write(dataSlice);\n\t\t}\n", "\t\t\tclmFileWriter.Write(dataSlice);\n\t\t}\n\t\t}\n\t\tstd::rename(temporaryFilename.c_str(), archiveFilename.c_str());\n")], "CLM written to <archive>.tmp and renamed into place (an input living at that path is destroyed)"),
  ("M50", "C07", [("src/Map/MapReader.cpp", "if (mapHeader.lgWidthInTiles >= 32 ||", "if (mapHeader.lgWidthInTiles > 32 ||")], "log-width of exactly 32 accepted again"),
 ]
 
